@@ -13,7 +13,8 @@ EXTENDS ExecLaws, Universe, SequencesExt, Json
 
 P2(k) == BNMul2k(BNOne, k)
 AbsNums == { BN(-1), BNZero, BNOne, BNMk(FALSE, <<3>>, -1), BN(2), P2(31), P2(53), BNAdd(P2(53), BNOne),
-             BNSub(P2(63), BNOne), BNNeg(P2(63)), BNPow10(19), BNAdd(P2(53), BN(2)), BNMk(TRUE, <<5>>, -1), P2(63) }
+             BNSub(P2(63), BNOne), BNNeg(P2(63)), BNPow10(19), BNAdd(P2(53), BN(2)), BNMk(TRUE, <<5>>, -1), P2(63),
+             BN(-2), BNMk(TRUE, <<1>>, -1) }      \* -2 next to -2.5, 0 next to -0.5: same integer part, negative fraction
 
 (* the Go representations an exact number has *)
 RepsOf(n) ==
